@@ -78,9 +78,12 @@ def operands_from_operand_group(ctx, rule, I, sites):
         elif isinstance(a, AbsList):
             flags = sorted(k for k in BAD_LIST_FLAGS if a.flags.get(k))
             addr = origin(I, site.fields.get("addr"))
-            subj = a.flags.get("subject")
+            # the split of the operand group: re.split(<splitter>, group) or, on a path that established that the text
+            # has no parenthesis, group.split(',') (the splitter itself is judged by split_rule)
+            subj = a.flags.get("subject") if a.flags.get("resplit") else (a.flags.get("of") if a.flags.get("split") else None)
             so = origin(I, subj) if subj is not None else ("other", "", None)
-            ok = (not flags and bool(a.flags.get("resplit")) and so[0] == "group" and addr[0] == "group" and so[1] == addr[1]
+            is_split = bool(a.flags.get("resplit")) or (a.flags.get("split") or ("", ""))[1] == ","
+            ok = (not flags and is_split and so[0] == "group" and addr[0] == "group" and so[1] == addr[1]
                   and not (isinstance(v, ListV) and v.items))
             why = f"flags={flags} appended={a.flags.get('appended')} source={a.src[:60]}"
         else:
@@ -161,4 +164,74 @@ def forwarding_rule(ctx, rule):
         ctx.check(ok, rule, "ObjdumpParserManual.parse",
                   f"consumed={args} expected={wants[0]} config-reads={[c.key for c in cfg]} other-conditions={[str(k)[:40] for k, _ in other]}"[:240],
                   "every parsed line that is an Instruction is forwarded once, in line order; nothing else decides")
+    return n
+
+
+def split_rule(ctx, rule, I):
+    """LineParser.get_splitted_operands: the operand text is split at every ',' not followed by [^(]* ')' (unbounded),
+    on the whole text, without a split limit"""
+    from .. import rx
+    from ..values import AbsList, Hole, Str
+    lp = ctx.p.find_class("LineParser")
+    m = lp.find_method("get_splitted_operands")
+    if m is None:
+        raise AnalysisError("anchor LineParser.get_splitted_operands not found")
+
+    def thunk2(I):
+        return I.call_func(m, [], {"operands": Str((Hole("OPERANDS", "text", True),))}, None, None, None)
+    n = 0
+    for p in I.explore(thunk2):
+        n += 1
+        v = p.value if p.kind == "return" else None
+        pat = v.flags.get("resplit") if isinstance(v, AbsList) else None
+        ok = False
+        why = f"result {v!r} under {p.cond_labels()[:2]}"[:120]
+        if pat is not None and not v.flags.get("extra_args") and "OPERANDS" in v.src and not any(v.flags.get(k) for k in BAD_LIST_FLAGS):
+            ast = rx.parse(pat)
+            items = rx.seq_items(ast)
+            if len(items) == 2 and isinstance(items[0], rx.Char) and items[0].c == "," and isinstance(items[1], rx.Group) \
+                    and items[1].kind == "nla":
+                inner = rx.seq_items(items[1].body)
+                ok = (len(inner) == 2 and isinstance(inner[0], rx.Rep) and inner[0].lo == 0 and inner[0].hi is None
+                      and isinstance(rx.unwrap(inner[0].body), rx.Cls) and rx.excludes(rx.unwrap(inner[0].body), "(")
+                      and all(rx.can_match_char(rx.unwrap(inner[0].body), c) for c in "%,)0x1-$rax ")
+                      and isinstance(inner[1], rx.Char) and inner[1].c == ")")
+            why = pat
+        elif isinstance(v, AbsList) and v.flags.get("split") == ("<OPERANDS>", ",") and not any(v.flags.get(k) for k in BAD_LIST_FLAGS) \
+                and any(isinstance(k, tuple) and k[0] == "in" and k[1] in (("s", "("), ("s", ")")) and k[2] == ("s", "<OPERANDS>") and val is False
+                        for k, val, _ in p.conds):
+            ok = True      # a text without '(' (or without ')') has no protected comma: the plain split is the same split
+            why = "plain split on a parenthesis-free text"
+        ctx.check(ok, rule, "LineParser.get_splitted_operands", why,
+                  "operands are split at every ',' that is not followed by [^(]* ')' (i.e. not inside parentheses), "
+                  "on the whole operand text, without a split limit, on every path")
+    return n
+
+
+def parser_never_swallows(ctx, rule):
+    """no function of the listing parser (stringify_asm package) or of the consumer catches an exception without
+    re-raising it: a line or an instruction that cannot be digested aborts the scan, it is never dropped from the
+    stream or passed on half-parsed (the two reviewed string classifiers of the normaliser excepted)"""
+    import ast as _ast
+    from .c17 import CLASSIFIERS, always_raises, is_conversion_probe
+    n = 0
+    for m in ctx.p.modules.values():
+        rel = m.rel()
+        if "stringify_asm" not in rel and not rel.endswith("consumer.py"):
+            continue
+        funcs = [f for c in m.classes.values() for f in list(c.methods.values()) + list(c.setters.values())] + list(m.funcs.values())
+        for f in funcs:
+            probes = {id(h) for t in _ast.walk(f.node) if isinstance(t, _ast.Try) for h in t.handlers if is_conversion_probe(t, h)}
+            for node in _ast.walk(f.node):
+                if isinstance(node, _ast.ExceptHandler):
+                    n += 1
+                    if f.qualname in CLASSIFIERS or id(node) in probes:
+                        ctx.ok(rule, f.qualname, "reviewed: " + CLASSIFIERS.get(f.qualname, "int()/float() conversion probe"))
+                        continue
+                    ctx.check(always_raises(node.body), rule, f.qualname,
+                              f"except {_ast.unparse(node.type) if node.type else ''}: does not re-raise",
+                              "every except clause on the way from the listing text to the stream ends in raise",
+                              where=f"{rel}:{node.lineno}")
+    if n == 0:
+        ctx.ok(rule, "stringify_asm + consumer", "no exception handler at all")
     return n
